@@ -152,6 +152,8 @@ type Result struct {
 	RecoveredRuntimeMsg    string `json:"recovered_runtime_msg,omitempty"`
 	RecoveredRuntimeOrigin string `json:"recovered_runtime_origin,omitempty"`
 
+	LeakedLocks int `json:"leaked_locks,omitempty"` // locks taken and not released by this (sequential) execution
+
 	Ticks   uint64 `json:"ticks"`
 	SoftHit bool   `json:"soft_hit,omitempty"`
 	FSCalls int    `json:"fs_calls"`
@@ -286,6 +288,22 @@ func panicSignature(r any) (kind, sig string) {
 	switch v := r.(type) {
 	case simrt.BudgetExceeded:
 		return "budget", "nontermination:" + v.What
+	case simrt.Deadlock:
+		pcs := make([]uintptr, 64)
+		n := runtime.Callers(3, pcs)
+		frames := runtime.CallersFrames(pcs[:n])
+		fn := "?"
+		for {
+			f, more := frames.Next()
+			if libFrame(f.Function) {
+				fn = strings.TrimPrefix(f.Function, "github.com/jsightapi/")
+				break
+			}
+			if !more {
+				break
+			}
+		}
+		return "deadlock", "blocked-forever@" + fn
 	case runtime.Error:
 		kind = "runtime"
 		_ = v
@@ -364,6 +382,9 @@ func executeWith(p *Project, oo []core.Option, entry string, env Env, seed uint6
 
 func runLibraryWith(root string, rootContent []byte, options []core.Option, entry string) (res Result) {
 	stage := "create"
+	if !simrt.Scheduling() {
+		simrt.ResetSeqHeld()
+	}
 	defer func() {
 		if r := recover(); r != nil {
 			res.PanicKind, res.PanicSig = panicSignature(r)
@@ -372,6 +393,9 @@ func runLibraryWith(root string, rootContent []byte, options []core.Option, entr
 				res.Panic = res.Panic[:300]
 			}
 			res.Stage = stage
+		}
+		if !simrt.Scheduling() {
+			res.LeakedLocks = simrt.SeqHeldLocks()
 		}
 		res.Ticks, res.SoftHit = simrt.Ticks()
 		n, site, msg, origin := simrt.RecoveredRuntimeErrors()
